@@ -42,6 +42,7 @@ type HarnessSpec struct {
 	EagerGo     bool               `json:"eagerGo"`
 	UnboundedCh bool               `json:"unboundedChans"`
 	NoAutoMerge bool               `json:"noAutoMerge"`
+	RegionMerge bool               `json:"regionMerge"` // merge branch regions up to their post-dominator
 	Havoc       []string           `json:"havoc"` // functions replaced by "any result" stubs
 	AllocLimit  int                `json:"allocLimit"`
 	MaxSymIndex int                `json:"maxSymIndex"`
@@ -53,6 +54,7 @@ type HarnessSpec struct {
 type OverlayFile struct {
 	Package string `json:"package"` // directory relative to repo root
 	File    string `json:"file"`    // file name under /verif/harness/<prop>/
+	Src     string `json:"src"`     // optional: source path relative to /verif (shared support files)
 }
 
 type PropSpec struct {
@@ -140,10 +142,76 @@ func main() {
 			}
 		}
 		os.Exit(rc)
+	case "replay":
+		if len(os.Args) < 3 {
+			fmt.Fprintln(os.Stderr, "usage: symgo replay <replay.json>")
+			os.Exit(2)
+		}
+		os.Exit(runReplay(os.Args[2]))
 	default:
 		fmt.Fprintln(os.Stderr, "unknown command")
 		os.Exit(2)
 	}
+}
+
+// runReplay re-runs one counterexample vector natively against the current
+// /repo tree and reports whether the recorded failure reproduces.
+func runReplay(file string) int {
+	b, err := os.ReadFile(file)
+	if err != nil {
+		fmt.Fprintln(os.Stderr, "error:", err)
+		return 2
+	}
+	var rp struct {
+		Property string            `json:"property"`
+		Harness  string            `json:"harness"`
+		Kind     string            `json:"kind"`
+		ID       string            `json:"id"`
+		Meta     map[string]string `json:"meta"`
+	}
+	if err := json.Unmarshal(b, &rp); err != nil {
+		fmt.Fprintln(os.Stderr, "error:", err)
+		return 2
+	}
+	spec, err := loadSpec(rp.Property)
+	if err != nil {
+		fmt.Fprintln(os.Stderr, "error:", err)
+		return 2
+	}
+	overlayPaths := map[string]string{filepath.Join(repoDir, "internal/verifrt/verifrt.go"): filepath.Join(verifDir, "rt/verifrt.go")}
+	for _, f := range spec.Files {
+		src := filepath.Join(verifDir, "harness", rp.Property, f.File)
+		if f.Src != "" {
+			src = filepath.Join(verifDir, f.Src)
+		}
+		overlayPaths[filepath.Join(repoDir, f.Package, f.File)] = src
+	}
+	pkgDir := rp.Meta["package"]
+	// package name: ask go list
+	cmd := exec.Command("go", "list", "-f", "{{.Name}}", "./"+pkgDir)
+	cmd.Dir = repoDir
+	cmd.Env = goEnv()
+	out, err := cmd.Output()
+	if err != nil {
+		fmt.Fprintln(os.Stderr, "error: go list:", err)
+		return 2
+	}
+	workDir := filepath.Join(verifDir, ".work", "replay-"+sanitize(filepath.Base(file)))
+	os.MkdirAll(workDir, 0o755)
+	defer os.RemoveAll(workDir)
+	abs, _ := filepath.Abs(file)
+	outcomes, note := nativeReplayDir(rp.Property, spec, pkgDir, strings.TrimSpace(string(out)), workDir, overlayPaths, filepath.Dir(abs), filepath.Base(abs))
+	oc := outcomes[filepath.Base(file)]
+	want := rp.Kind + ":" + rp.ID
+	fmt.Printf("replay %s: recorded=%s native=%s\n", filepath.Base(file), want, oc)
+	if note != "" {
+		fmt.Println(note)
+	}
+	if oc == want || (rp.Kind == "panic" && strings.HasPrefix(oc, "panic")) {
+		fmt.Printf("VIOLATION property=%s replay=%s\n", rp.Property, abs)
+		return 1
+	}
+	return 0
 }
 
 func loadSpec(prop string) (*PropSpec, error) {
@@ -225,7 +293,11 @@ func runCheck(prop, tier, only string, trace bool, workers int, noReplay bool, s
 	}
 	pkgDirs := map[string]bool{}
 	for _, f := range spec.Files {
-		if err := addOverlay(filepath.Join(repoDir, f.Package, f.File), filepath.Join(verifDir, "harness", prop, f.File)); err != nil {
+		src := filepath.Join(verifDir, "harness", prop, f.File)
+		if f.Src != "" {
+			src = filepath.Join(verifDir, f.Src)
+		}
+		if err := addOverlay(filepath.Join(repoDir, f.Package, f.File), src); err != nil {
 			fmt.Fprintln(os.Stderr, "error:", err)
 			return 2
 		}
@@ -317,7 +389,7 @@ func runCheck(prop, tier, only string, trace bool, workers int, noReplay bool, s
 			AllocLimit: orInt(h.AllocLimit, 1<<22), SolverTimeout: 30000, SolverKind: solverKind, Workers: workers,
 			MapOrderAny: h.MapOrderAny, EagerGo: h.EagerGo, UnboundedChans: h.UnboundedCh, Trace: trace, PanicsOK: h.PanicsOK,
 			SkipInit: map[string]bool{}, Known: known, AutoMerge: !h.NoAutoMerge, MaxMergePaths: 4096, MaxViolPerID: 1,
-			Params: tc.Params, Havoc: map[string]bool{},
+			Params: tc.Params, Havoc: map[string]bool{}, RegionMerge: h.RegionMerge && os.Getenv("SYMGO_NOREGION") == "",
 		}
 		for _, hv := range h.Havoc {
 			ecfg.Havoc[hv] = true
@@ -565,6 +637,10 @@ func orInt64(v, d int64) int64 {
 // nativeReplay compiles the harness package natively (go test -overlay) with
 // a generated driver test and runs every replay file in replayFiles' directory.
 func nativeReplay(prop string, spec *PropSpec, pkgDir, pkgName, workDir string, overlayPaths map[string]string, glob string) (map[string]string, string) {
+	return nativeReplayDir(prop, spec, pkgDir, pkgName, workDir, overlayPaths, filepath.Join(verifDir, "replays", prop), glob)
+}
+
+func nativeReplayDir(prop string, spec *PropSpec, pkgDir, pkgName, workDir string, overlayPaths map[string]string, replayDir, glob string) (map[string]string, string) {
 	outcomes := map[string]string{}
 	// driver
 	var entries []string
@@ -632,7 +708,7 @@ func nativeReplay(prop string, spec *PropSpec, pkgDir, pkgName, workDir string, 
 	os.WriteFile(ovFile, ob, 0o644)
 	cmd := exec.Command("go", "test", "-v", "-vet=off", "-count=1", "-timeout", "300s", "-overlay", ovFile, "-run", "^TestVerifReplay$", "./"+pkgDir)
 	cmd.Dir = repoDir
-	cmd.Env = append(goEnv(), "VERIF_REPLAY_DIR="+filepath.Join(verifDir, "replays", prop), "VERIF_REPLAY_GLOB="+glob)
+	cmd.Env = append(goEnv(), "VERIF_REPLAY_DIR="+replayDir, "VERIF_REPLAY_GLOB="+glob)
 	out, err := cmd.CombinedOutput()
 	note := ""
 	re := regexp.MustCompile(`(?m)^VERIF-REPLAY file=(\S+) outcome=(.*)$`)
